@@ -66,6 +66,7 @@ Conforms(e) ==
     [] e.op = "curl.pool" -> \A k \in DOMAIN e.out.blocks : Len(e.out.blocks[k]) = HashLen
     [] e.op = "curl.first" -> e.out.panic = ""          \* ... also when that is the first use in the process (child processes)
     [] e.op = "curl.par" -> e.out.panic = ""            \* instances used concurrently behave as when used alone (compared in the driver)
+    [] e.op = "curl.env" -> e.out.panic = ""            \* the environment writes to mutable state of other packages: no effect on any instance (Apply: UNCHANGED)
     [] e.op = "curl.new" -> e.out.panic = "" /\ e.out.fresh
     [] e.op = "curl.reset" -> e.out.panic = "" /\ e.out.fresh /\ e.in.id \in DOMAIN insts
     [] e.op = "curl.clone" -> e.out.panic = "" /\ e.out.same_state /\ e.in.id \in DOMAIN insts
